@@ -54,6 +54,14 @@ Theorem stft_full_when_idle :
 Proof. exact @full_when_idle_l. Qed.
 Print Assumptions stft_full_when_idle.
 
+(* ---- tie to the source (see C01/Props.v) ---- *)
+From Verif Require Import Stft.Tie.
+Theorem stft_model_is_source :
+  forall (A : Type) (c : cfg) (s : st A) (chunk : list A),
+  compute_chunk_src c s chunk = compute_chunk c s chunk /\ finalize_src c s = finalize c s.
+Proof. intros; split; [apply compute_chunk_tie | apply finalize_tie]. Qed.
+Print Assumptions stft_model_is_source.
+
 (* ---- short-integration computer (model coq/C03/Model.v) ---- *)
 (* any two idle instances - whatever utterances, chunkings, repeated finalize calls
    they went through - give the same feature matrix for the next utterance, computed at
